@@ -491,10 +491,10 @@ def wire_to_sched(g, consts):
     lens = LENS[consts["MsgLens"][2:].strip()]
     table = C2S_BY_LEN if d == "c2s" else S2C_BY_LEN
     cfg = {"kind": "rt", "codec": codec, "dir": d, "msgs": [table[l] for l in lens], "rscript": rs, "wscript": ws,
-           "transit": [0, 0, 3][(h // 4) % 3], "close": ["drop", "close"][(h // 12) % 2]}
+           "transit": [0, 0, 3][(h // 4) % 3], "close": ["drop", "close", "closekeep"][(h // 12) % 3]}
     if consts.get("IoBuf"):
         # a buffering byte stream: the flush has to be driven to completion by the writer; "keep" leaves the writer alive
-        cfg.update(iobuf=True, fscript=fs, close=["drop", "close", "keep"][(h // 12) % 3])
+        cfg.update(iobuf=True, fscript=fs, close=["drop", "close", "keep", "closekeep"][(h // 12) % 4])
     return dict(cfg=cfg, steps=[], tags=(codec, d, cfg["close"]) if consts.get("IoBuf") else (codec, d))
 
 
@@ -508,7 +508,7 @@ def wire_fixed(kinds):
         if "mem" in kinds:
             for codec in ("mem-unbounded", "mem-bounded"):
                 for d in ("c2s", "s2c"):
-                    for close in ("drop", "close", "keep"):
+                    for close in ("drop", "close", "keep") + (("closekeep",) if codec == "mem-bounded" else ()):
                         msgs = (["req", "req-idmax", "cancel", "req-unicode", "req-large", "req-past"] if d == "c2s"
                                 else ["resp", "err:NotFound", "err:OutOfMemory", "resp-large", "resp-idmax"])
                         out.append(dict(id="fixed:%s:%s:%s" % (codec, d, close),
@@ -654,6 +654,22 @@ def burst_family(*kinds):
                 tag="burst", opts={})
 
 
+def clones_fixed(tier):
+    """scale in the number of handles: a handle cloned 2^16 (2^17) times over its life, calls through old and new clones"""
+    out = []
+    cfg = dict(maxInFlight=64, buf=64, mode="always", cap=1, open=True, credits=0, spin=20000)
+    for total in ((65536,) if tier == "quick" else (65536, 131072, 70000)):
+        steps = [{"a": "Call", "c": 1, "dl": 10000, "h": 0, "tr": 101, "sampled": True}, {"a": "Poll", "t": "c1"}, {"a": "Poll", "t": "d"},
+                 {"a": "CloneMany", "h": 0, "n": total - 1}, {"a": "HandleClone", "h": 0},
+                 {"a": "Call", "c": 2, "dl": 10000, "h": 1, "tr": 102, "sampled": False}, {"a": "Poll", "t": "c2"}, {"a": "Poll", "t": "d"},
+                 {"a": "HandleClone", "h": 1}, {"a": "Call", "c": 3, "dl": 10000, "h": 2, "tr": 103, "sampled": True}, {"a": "Poll", "t": "c3"},
+                 {"a": "Poll", "t": "d"}, {"a": "Peer", "id": 0}, {"a": "Settle"}, {"a": "Peer", "id": 1}, {"a": "Peer", "id": 2}, {"a": "Settle"}]
+        out.append(dict(id="scale:clones:%d" % total, cfg=cfg, steps=steps))
+    return out
+
+
+PROPS["C01"]["families"].append(dict(family="client", trace_module="Trace_Client", fixed=clones_fixed, exports=[], random_quick=0, random_thorough=0,
+                                     tag="clones", opts={}, no_mech=True))
 PROPS["C02"]["families"].append(burst_family("reply", "deadline", "fault"))
 # the server's and the handlers' wake-ups: the request stream alone (Inv_C02s: everything pushed is read, a closed peer is
 # noticed, at settle points) and real client -> server -> handler chains (nothing pending at quiescence)
